@@ -437,7 +437,7 @@ func runRootsUnreadable(c *engine.Ctx, rc rootsCase) {
 		kind string
 		pos  int
 	}
-	vs := []variant{{name: "other-wrapper"}, {name: "no-wrapper"}}
+	vs := []variant{{name: "other-wrapper"}, {name: "no-wrapper"}, {name: "reinit-other-wrapper"}}
 	for _, kind := range []string{recstore.FaultGeneric, recstore.FaultCancelled} {
 		for pos := 1; pos <= 6; pos++ {
 			vs = append(vs, variant{name: "fault", kind: kind, pos: pos})
@@ -476,6 +476,9 @@ func runRootsUnreadable(c *engine.Ctx, rc rootsCase) {
 			nodeenrollment.WithNotAfterClockSkew(time.Duration(rc.NaSkewS) * time.Second),
 		}
 		switch v.name {
+		case "reinit-other-wrapper":
+			// the operator lost the wrapping key and starts over with a new one
+			opts = append(opts, nodeenrollment.WithStorageWrapper(world.NewAead("the-new-key")), nodeenrollment.WithReinitializeRoots(true))
 		case "other-wrapper":
 			opts = append(opts, nodeenrollment.WithStorageWrapper(world.NewAead("some-other-key")))
 		case "no-wrapper":
@@ -494,6 +497,19 @@ func runRootsUnreadable(c *engine.Ctx, rc rootsCase) {
 		case p != nil:
 			r.Violation("panic:"+engine.LibraryFrame(st), fmt.Sprintf("RotateRootCertificates panicked: %v", p), wit)
 		case v.name == "fault" && !fired:
+		case v.name == "reinit-other-wrapper":
+			r.Eval(desc, true)
+			kept := func(x *types.RootCertificate) bool {
+				return x == nil || bytes.Equal(x.PublicKeyPkix, ck.Pkix) || bytes.Equal(x.PublicKeyPkix, nk.Pkix)
+			}
+			switch {
+			case cerr != nil:
+				r.Violation("reinitialize-refused:unreadable-record", "reinitialization was requested on a record the given wrapper cannot open and the call failed: "+cerr.Error(), wit)
+			case ret == nil || kept(ret.Current) || kept(ret.Next):
+				r.Violation("reinitialize-kept-a-root", "reinitialization over an unreadable record reported success but an old root is still in place", wit)
+			default:
+				r.Count("unreadable_roots:reinitialized", 1)
+			}
 		case cerr != nil:
 			r.Eval(desc, true)
 			r.Count("unreadable_roots:refused:"+v.name, 1)
@@ -567,6 +583,10 @@ func runRootsCase(c *engine.Ctx, rc rootsCase) {
 			r.Count("halfmissing_refused", 1)
 			if ret != nil {
 				k.viol("error-with-roots", "error returned together with a root set")
+			}
+			if rc.Reinit {
+				// a reinitialization replaces whatever is stored, also a record that cannot be used
+				k.viol("reinitialize-refused:half-missing-record", "reinitialization was requested on a half-missing root record and the call failed: "+cerr.Error())
 			}
 			return
 		}
@@ -780,6 +800,7 @@ func runRoots(c *engine.Ctx) engine.Result {
 	r.Require("unreadable_roots:refused:other-wrapper", 4)
 	r.Require("unreadable_roots:refused:no-wrapper", 4)
 	r.Require("unreadable_roots:refused:fault", 8)
+	r.Require("unreadable_roots:reinitialized", 4)
 	r.Require("near_boundary_cases", 30)
 	return res
 }
